@@ -237,6 +237,7 @@ type mrec struct {
 	F       Fields
 	Created, Modified, Expires, Deleted int64
 	Secret, Crown bool
+	flaggedAtWrite bool
 }
 
 func (m *mrec) visible(now int64) bool {
